@@ -104,3 +104,183 @@ def judge(res, pr, corr_bad, spec_bad):
         res.violation("model and implementation disagree on %r: impl=%s model=%s (%d disagreements); "
                       "the implementation satisfied the executable specification on every input tried" % (n, i, m, len(corr_bad)),
                       {"correspondence": "includename/paths", "input": C.hx(n), "impl": i, "model": m}, found_input=False)
+
+
+# ======================================================================================
+# project-level stages: INCLUDE as textual inclusion, rejections, model correspondence
+import random as _random
+import re as _re
+
+from .. import corecheck as K
+from .. import proj as P
+from .. import scancheck as S
+
+NESTY = [7, 8, 9, "P8", 15, 14, 13, 17, 4, 18, 16, 29, 1, 2, 3, 5, 6, 19, 20, 28, 25, 24, 26]
+
+
+def cut_project(rng, items, max_cuts=3):
+    """move runs of items into included files (possibly nested); returns (files, spliced_text)"""
+    texts = [K.render_items([it]).decode() for it in items]
+    # uniq names need global numbering: render all at once instead
+    whole = K.render_items(items).decode()
+    # split the whole text back into per-item chunks (each item starts at a line that begins with its keyword)
+    chunks = []
+    lines = whole.split("\n")[:-1]
+    cur = []
+    starts = []
+    i = 0
+    for it in items:
+        n = len(K.render_items([it]).decode().split("\n")) - 1
+        chunks.append("\n".join(lines[i:i + n]) + "\n")
+        i += n
+    files = {}
+    counter = [0]
+
+    def build(seq, depth, dirprefix):
+        """seq: list of chunk strings -> text with some runs replaced by INCLUDE"""
+        if len(seq) < 2 or depth > 2:
+            return "".join(seq)
+        ncuts = rng.randint(0, max_cuts)
+        out = list(seq)
+        for _ in range(ncuts):
+            if len(out) < 2:
+                break
+            lo = 1 if (depth == 0 and out and out[0].startswith("JSIGHT")) else 0   # JSIGHT stays in the root file
+            if len(out) - lo < 1:
+                break
+            a = rng.randrange(lo, len(out))
+            b = rng.randrange(a + 1, len(out) + 1)
+            run = out[a:b]
+            counter[0] += 1
+            # an INCLUDE line keeps its meaning only in the directory it was written for
+            sub = "" if (rng.random() < 0.6 or any(c.startswith("INCLUDE") for c in run)) else "d%d/" % counter[0]
+            name = "%sf%d.jst" % (sub, counter[0])
+            files[dirprefix + name] = build(run, depth + 1, dirprefix + sub)
+            out[a:b] = ["INCLUDE %s\n" % name]
+        return "".join(out)
+
+    root = build(chunks, 0, "")
+    proj = [("main.jst", root)] + sorted(files.items())
+    return proj, whole
+
+
+def stage_projects(res, pr, tier, seed):
+    rng = _random.Random(seed + 8)
+    quick = tier == "quick"
+    corr_bad, spec_bad = [], []
+    # ---- A: random directive sequences cut into files
+    seqs = []
+    for _ in range(1500 if quick else 20000):
+        n = rng.randint(2, 9)
+        seqs.append([0] + [rng.choice(NESTY) for _ in range(n)])
+    projects, wholes = [], []
+    for s in seqs:
+        pj, whole = cut_project(rng, s)
+        projects.append(pj)
+        wholes.append([("main.jst", whole)])
+    ni, nm, mism = K.compare(projects, "stage=scan")
+    ns, _, _ = K.compare(wholes, "stage=scan")
+    res.count(2 * len(projects))
+    res.coverage["traces_validated_against_impl"] += len(projects)
+    nfiles = {}
+    for k, (pj, a, b) in enumerate(zip(projects, ni, ns)):
+        nfiles[len(pj)] = nfiles.get(len(pj), 0) + 1
+        if len(pj) > 1:
+            res.nontrivial(tuple(pj))
+        if a[0] != b[0]:
+            spec_bad.append((pj, "verdict differs from the spliced single file: %s vs %s" % (a[:6], b[:6])))
+        elif a[0] == "ok":
+            if K.shape(K.parse_forest(a[1]), pj) != K.shape(K.parse_forest(b[1]), wholes[k]):
+                spec_bad.append((pj, "directive forest differs from the spliced single file"))
+        elif a[0] == "err" and a[-1] != b[-1]:
+            spec_bad.append((pj, "error class differs from the spliced single file: %s vs %s" % (a[-1], b[-1])))
+    for k in mism:
+        corr_bad.append((projects[k], ni[k][:6] if ni[k][0] == "err" else ("ok",), nm[k][:6] if nm[k][0] == "err" else ("ok",)))
+    # ---- B: what must be rejected
+    J = "JSIGHT 0.3\n"
+    rej = [
+        ([("main.jst", J + "INCLUDE main.jst\n")], "includerecursion|jsightininclude"),
+        ([("main.jst", J + "INCLUDE b.jst\n"), ("b.jst", "INCLUDE main.jst\n")], "includerecursion|jsightininclude"),
+        ([("main.jst", "INCLUDE main.jst\n")], "includerecursion"),
+        ([("main.jst", "TYPE @a\n{}\nINCLUDE b.jst\n"), ("b.jst", "INCLUDE main.jst\n")], "includerecursion"),
+        ([("main.jst", J + "INCLUDE b.jst\n"), ("b.jst", "INCLUDE c.jst\n"), ("c.jst", "INCLUDE b.jst\n")], "includerecursion"),
+        ([("main.jst", J + "INCLUDE nope.jst\n")], "includenotexist"),
+        ([("main.jst", J + "INCLUDE d\n"), ("d/x.jst", "")], "includeisdir"),
+        ([("main.jst", J + "INCLUDE .\n")], "includeisdir"),
+        ([("main.jst", J + "INCLUDE ..\n")], "includeisdir"),
+        ([("main.jst", J + "INCLUDE b.jst\n"), ("b.jst", "JSIGHT 0.3\n")], "jsightininclude"),
+        ([("main.jst", J + "INCLUDE\n")], "includenoparam"),
+        ([("main.jst", J + "INCLUDE /etc/passwd\n")], "includebadname"),
+        ([("main.jst", J + "INCLUDE ../x.jst\n")], "includebadname"),
+        ([("main.jst", J + "INCLUDE a/../x.jst\n")], "includebadname"),
+        ([("main.jst", J + "INCLUDE a\\\\x.jst\n")], "includebadname"),
+        ([("main.jst", J + "INCLUDE ./x.jst\n"), ("x.jst", "")], "includebadname"),
+        ([("sub/main.jst", J + "INCLUDE ../x.jst\n"), ("x.jst", "TYPE @a\n{}\n")], "includebadname"),
+    ]
+    ri, rm, rmis = K.compare([p for p, _ in rej], "stage=scan")
+    res.count(len(rej))
+    for (pj, want), a in zip(rej, ri):
+        if a[0] != "err" or a[-1] not in want.split("|"):
+            spec_bad.append((pj, "must be rejected as %s, got %s" % (want, a[:6])))
+    for k in rmis:
+        corr_bad.append((rej[k][0], ri[k][:6], rm[k][:6]))
+    # ---- C: full pipeline on fixtures cut at top-level directive boundaries
+    files = S.fixture_files()
+    top_re = _re.compile(r"^(URL|GET|POST|PUT|PATCH|DELETE|TYPE|ENUM|SERVER|TAG|INFO) ?", _re.M)
+    cand = []
+    for f in files:
+        if "/err" in f or "include" in f.lower():
+            continue
+        t = open(f, "rb").read().decode("latin1")
+        if "\r" in t or "INCLUDE" in t or "MACRO" in t or "\n(" in t or "Description" in t or "###" in t:
+            continue
+        starts = [m.start() for m in top_re.finditer(t)]
+        if len(starts) >= 3:
+            cand.append((f, t, starts))
+    rng.shuffle(cand)
+    cand = cand[: (60 if quick else 400)]
+    cut_projects, originals = [], []
+    for f, t, starts in cand:
+        a = rng.randrange(0, len(starts) - 1)
+        b = rng.randrange(a + 1, len(starts))
+        beg, end = starts[a], starts[b]
+        cut_projects.append([("main.jst", t[:beg] + "INCLUDE inc/part.jst\n" + t[end:]), ("inc/part.jst", t[beg:end])])
+        originals.append([("main.jst", t)])
+    if cut_projects:
+        oc = C.run_sharded("harness", "fn", [P.run_line("out=sha", p) for p in cut_projects])
+        oo = C.run_sharded("harness", "fn", [P.run_line("out=sha", p) for p in originals])
+        res.count(2 * len(cut_projects))
+        for pj, x, y in zip(cut_projects, oc, oo):
+            sx, dx = P.parse(x)
+            sy, dy = P.parse(y)
+            if sx != sy or (sx == "ok" and dx.get("sha") != dy.get("sha")):
+                # a fixture whose col-0 keyword is not a top-level directive boundary is outside the claim
+                spec_bad.append((pj, "full pipeline: cut fixture gives %s %s, the original %s %s" % (sx, dx.get("sha", C.unhx(dx.get("msg", "-"))[:60]), sy, dy.get("sha", ""))))
+            elif sx == "ok":
+                res.nontrivial(("fixture", pj[0][1][:200]))
+    res.notes["project_stage"] = {"cut_sequences": len(projects), "files_per_project": nfiles, "rejection_cases": len(rej),
+                                  "fixture_cuts": len(cut_projects)}
+    res.sample({"project": [(n, c[:120]) for n, c in projects[len(projects) // 3]]})
+    return corr_bad, spec_bad
+
+
+_old_run = run
+
+
+def run(res, tier, seed, replay):  # noqa: F811
+    _old_run(res, tier, seed, replay)
+    if res.violations or replay:
+        return
+    pr = C.Prep()
+    pr.proof_ok = True
+    corr_bad, spec_bad = stage_projects(res, pr, tier, seed)
+    for pj, why in spec_bad[:5]:
+        res.violation("INCLUDE is not textual inclusion / rejection missing: %s" % why,
+                      {"project": [(C.hx(n), C.hx(c)) for n, c in pj], "why": why})
+    if spec_bad:
+        return
+    if corr_bad:
+        pj, a, b = corr_bad[0]
+        res.violation("core model and implementation disagree on a multi-file project (%d disagreements): impl=%r model=%r; the "
+                      "implementation satisfied the executable statements on every project tried" % (len(corr_bad), a, b),
+                      {"correspondence": "project scan with INCLUDE", "project": [(C.hx(n), C.hx(c)) for n, c in pj]}, found_input=False)
